@@ -608,6 +608,7 @@ def emit_fn(u, file, nm, block):
             inf["label"] = m.group(1)
             if m.group(2):
                 inf["props"] = [x.strip() for x in m.group(2).split(",") if x.strip()]
+                inf["explicit_props"] = True
             u.labels.append({"fn": fname, "label": m.group(1), "props": inf["props"], "text": LABEL_RE.sub("", l).strip()})
         u.emit(l, inf)
     # ---- body with closure headers replaced
@@ -947,8 +948,10 @@ def classify(unit, res):
         spans = d.get("spans", [])
         prim = [s for s in spans if s.get("is_primary")]
         sec = [s for s in spans if not s.get("is_primary")]
+        unit.last_explicit = False
         name, props, where, fnn = name_failure(unit, msg, prim, sec)
-        named.append({"obligation": name, "props": props, "message": msg, "where": where, "rendered": d.get("rendered", ""), "fn": fnn})
+        named.append({"obligation": name, "props": props, "message": msg, "where": where, "rendered": d.get("rendered", ""), "fn": fnn,
+                      "explicit_props": bool(unit.last_explicit)})
     # resource-limit style messages
     for d in res["diags"]:
         m = d.get("message", "")
@@ -982,6 +985,8 @@ def name_failure(unit, msg, prim, sec):
             if inf and inf.get("label"):
                 label = inf["label"]
                 props = inf.get("props")
+                if inf.get("explicit_props"):
+                    unit.last_explicit = True
                 fn = inf.get("fn")
                 break
         if label:
